@@ -179,6 +179,10 @@ def cases(tier, seed):
         for nw_ in (1, 2):
             out.append({'fam': 'MEM', 'aw': 2, 'bw': 4, 'nr': 1, 'nw': nw_, 'regdrive': True, 'k': 'bmc_uninit', 'backend': be, 'K': 3})
             out.append({'fam': 'MEM', 'aw': 2, 'bw': 4, 'nr': 1, 'nw': nw_, 'regdrive': True, 'k': 'step', 'backend': be})
+    # a memory used as a table: read ports only, contents given at simulation time
+    for be in BACKENDS:
+        for nr_, bw_ in ((1, 4), (2, 3)):
+            out.append({'fam': 'MEM', 'aw': 2, 'bw': bw_, 'nr': nr_, 'nw': 0, 'k': 'step', 'backend': be})
     for nwc in (1, 2, 3):
         for be in BACKENDS:
             out.append({'fam': 'MEM', 'aw': 2, 'bw': 3, 'nr': 1, 'nw': nwc, 'cond': True, 'k': 'step', 'backend': be})
@@ -305,6 +309,11 @@ def run_mem(case, ob, site):
     block0 = designs.build(case)
     block = transformed(case, block0)
     be = case['backend']
+    # the memory is state the caller sets and observes (memory_value_map, inspect_mem): a pass may not drop it while a read
+    # port's data still reaches an Output
+    if not ob.fact('memory-still-part-of-the-block-after-%s' % be, any(n.op in 'm@' and n.op_param[1].name == 'm' for n in block.logic),
+                   site + ':memory-removed', detail='block after the pass: %s' % sorted(str(n) for n in block.logic)[:6]):
+        return
     aw, bw = case['aw'], case['bw']
     v = Vars()
     bmc = case['k'] == 'bmc_uninit'
@@ -537,6 +546,9 @@ def replay(cex):
             if trace['tw'][0] != twin_vals(case)[a]:
                 bad.append('second ROM named rom: [%d] = %r, its romdata says %r' % (a, trace['tw'][0], twin_vals(case)[a]))
         return bool(bad), '\n'.join(bad)
+    if cex.get('structural') and 'memory-still-part' in cex.get('obligation', ''):
+        gone = not any(n.op in 'm@' and n.op_param[1].name == 'm' for n in block.logic)
+        return gone, 'after %s the block no longer contains memory m: %s' % (be, sorted(str(n) for n in block.logic)[:6])
     K = case.get('K', 1)
     bmc = case['k'] == 'bmc_uninit'
     if be == 'compiled' and not bmc:
